@@ -128,7 +128,8 @@ def run_one(seed, preset=None, tier="quick", want_case=False):
                     tape.used[k] = v
     text, op_name, variables = case.text, case.op_name, copy.deepcopy(case.variables)
     context = None
-    kind = mt.weighted([(3, "valid"), (5, "text"), (1, "deep"), (2, "opname"), (2, "variables"), (2, "context"), (2, "spelling"), (1, "anonymous")])
+    kind = mt.weighted([(3, "valid"), (5, "text"), (1, "deep"), (2, "opname"), (2, "variables"), (2, "context"), (2, "spelling"), (1, "anonymous"),
+                        (2, "special")])
     detail = kind
     expect_nothing_ran = None
     op_names = [o.name for o in case.doc.operations()]
@@ -172,11 +173,37 @@ def run_one(seed, preset=None, tier="quick", want_case=False):
         text = "{ __typename } " + text + " { __typename }"
         op_name = None
         detail = "anonymous:3"
+    elif kind == "special":
+        frag_names = [n for n in case.doc.fragments() if n not in [o.name for o in case.doc.operations()]]
+        which = mt.draw(8)
+        if which == 0:
+            text = mt.choose(["", "   ", "\n\n", "# only a comment\n", ",,,", "\ufeff"])
+        elif which == 1:
+            text = "fragment OnlyFragment on %s { __typename }" % case.schema.query
+        elif which == 2:
+            text, op_name = ("mutation { __typename }" if not case.schema.mutation else "subscription { __typename }"), None
+        elif which == 3 and frag_names:
+            op_name = frag_names[0]  # a fragment's name is not an operation name
+        elif which == 4:
+            text, op_name = "{ __typename }", mt.choose(["Q", "query", "__typename"])
+        elif which == 5:
+            text = "query A { __typename } query A { __typename }"
+            op_name = "A"
+        elif which == 6:
+            text, op_name = "type OnlyTypeSystem { a: Int }", None
+        else:
+            text = "{ __typename @skip }"
+        detail = "special:%d" % which
     syntactically_ok = parses(text)
     if syntactically_ok is False:
         expect_nothing_ran = "syntax error"
     elif kind == "anonymous":
         expect_nothing_ran = "ambiguous anonymous operation"
+    elif kind == "special" and syntactically_ok and detail in ("special:1", "special:3", "special:4", "special:5", "special:6", "special:7"):
+        if detail != "special:3" or frag_names:
+            expect_nothing_ran = {"special:1": "no operation in the document", "special:3": "operation name is a fragment's name",
+                                  "special:4": "unknown operation name for an anonymous operation", "special:5": "duplicated operation name",
+                                  "special:6": "only a type-system definition", "special:7": "directive without its required argument"}[detail]
     elif kind == "opname" and syntactically_ok:
         try:
             truthy = bool(op_name)
